@@ -150,7 +150,7 @@ func e2Family(tier string, amevs []int64) []*Job {
 			if x == prim1 {
 				// a restarted validator follows the others to the view in which it is the speaker and is then handed its
 				// own (pre)commit of the earlier view
-				s13 := E2Spec{Views: 2, Proposals: "A", Commits: "A", Bundles: true, Peers: []int{0, 1, 2, 3}, MaxDepth: 8, StateCap: cap1}
+				s13 := E2Spec{Views: 2, Proposals: "A", OwnIndexProps: true, Responses: "A", RespPeers: 2, Commits: "A", Bundles: true, Peers: []int{0, 1, 2, 3}, MaxDepth: 8, StateCap: cap1}
 				if a >= 0 {
 					s13.PreCommits = "A"
 				}
